@@ -7,7 +7,7 @@
                                  /\ I3 (the stored _psd is inherited along every listing edge)
                                  /\ W  (containers list layers; exactly the allocated ids occur; no cycle flag).
    No cycle can be expressed in the forest: "no group is its own ancestor" is I2 on rose trees. *)
-From PsdV Require Import Base.Prelude Edit.Model Edit.Corr Edit.Inv Edit.Forest Edit.ProofsInv Edit.ProofsTree Edit.ProofsRefuse Edit.Spec Edit.ProofsMoves.
+From PsdV Require Import Base.Prelude Edit.Model Edit.Corr Edit.Inv Edit.Forest Edit.ProofsInv Edit.ProofsTree Edit.ProofsRefuse Edit.Spec Edit.ProofsMoves Edit.ProofsCoh Edit.ProofsClip.
 Open Scope Z_scope.
 
 (* ---------------------------------------------------------------- the invariant, for all states and operations *)
@@ -202,3 +202,46 @@ Proof.
   intro H. apply I3b_iff in H. vm_compute in H. discriminate.
 Qed.
 Print Assumptions stale_clip_repoints_psd_refuted.
+
+(* ---------------------------------------------------------------- clip lists after every history (C15 inside this state machine) *)
+(* Current s (Edit/ProofsClip.v): below every document, for every container a and every position of its list,
+   a non-clipping layer owns exactly the run of clipping layers listed directly above it and a clipping layer
+   owns none -- the specification of _compute_clipping_layers in the default compatibility mode, read off the
+   lists and flags of the state (KidsCur).  compute_clipping_result: the model of _compute_clipping_layers
+   achieves it for the whole tree below the document, for every tree.  With repair edc9f34 (every structural
+   mutator recomputes through _update_psd_record) it holds after EVERY operation, hence after every guarded
+   history of any length, on the variant with all repairs.  Objects that do not hang below a document keep
+   whatever lists they had (they are recomputed when they are attached). *)
+Theorem clip_layers_current_step : forall s o,
+  Inv s -> quiet s -> fixedv s -> guard s o -> Current s -> Current (fst (step s o)).
+Proof. intros s o HI Q. apply step_current. split; assumption. Qed.
+Print Assumptions clip_layers_current_step.
+
+Theorem clip_layers_current_after_history : forall c h,
+  cachefix c = true -> clipsfix c = true -> descfix c = true ->
+  guards (empty_state_v c) h -> Current (run (empty_state_v c) h).
+Proof.
+  intros c h C1 C2 C3 Hg. apply run_current; [apply empty_good; left; exact C3 | split; assumption | exact Hg | apply empty_current].
+Qed.
+Print Assumptions clip_layers_current_after_history.
+
+Theorem clip_layers_current_history : forall h s,
+  Inv s -> quiet s -> fixedv s -> guards s h -> Current s -> Current (run s h).
+Proof. intros h s HI Q. apply run_current. split; assumption. Qed.
+Print Assumptions clip_layers_current_history.
+
+(* F-C15-1 (fixed by edc9f34): before the repair a move left the lists stale: doc = [p2, p3^]; p3.move_down():
+   p2 still names p3 although no clipping layer is listed above p2 any more *)
+Definition cs_s : state := run (empty_state_v (mkCfg true true true false false)) (init6 ++ [MoveDown 3 1]).
+Lemma cs_kids : kid_ids cs_s 0 = [3] ++ 2 :: []. Proof. vm_compute. reflexivity. Qed.
+Lemma cs_clips : oclips (objs cs_s 2) = [3]. Proof. vm_compute. reflexivity. Qed.
+Lemma cs_flag : cfl cs_s 2 = false. Proof. vm_compute. reflexivity. Qed.
+Lemma cs_doc : kind cs_s 0 = KDoc /\ In 0 (ids_l (roots cs_s)).
+Proof. split; [vm_compute; reflexivity | apply (proj1 (memz_In 0 (ids_l (roots cs_s)))); vm_compute; reflexivity]. Qed.
+Theorem clip_layers_stale_after_move_refuted : exists s, Inv s /\ ~ Current s.
+Proof.
+  exists cs_s. split; [apply Invb_iff; vm_compute; reflexivity|]. intro C.
+  pose proof (C 0 (proj1 cs_doc) (proj2 cs_doc) 0 (or_introl eq_refl) [3] 2 [] cs_kids) as E.
+  rewrite cs_clips, cs_flag in E. discriminate.
+Qed.
+Print Assumptions clip_layers_stale_after_move_refuted.
